@@ -511,6 +511,12 @@ class PXRunner:
                 mop, call = "clr", lambda c: c.clear()
             elif k == "mul":
                 mop, call = "mul:%d" % op["n"], lambda c: c.__imul__(op["n"])
+            elif k == "assign":  # whole-collection assignment (AssociationProxy.set -> _bulk_replace): oracle only
+                new = list(op["vs"])
+                self.parent.values = new
+                self.shadow[:] = new
+                call = lambda c: None  # noqa: E731  (already applied to both)
+                self.model_frozen = True
             elif k == "sls":  # oracle only
                 sl = slice(*op["sl"])
                 call = lambda c: c.__setitem__(sl, list(op["vs"]))  # noqa: E731
@@ -548,6 +554,13 @@ class PXRunner:
                 mop, call = "clr", lambda c: c.clear()
             elif k == "pop":
                 call = lambda c: c.pop()  # noqa: E731  (arbitrary element: handled below)
+            elif k == "assign":
+                new = set(vs)
+                self.parent.tagvalues = new
+                self.shadow.clear()
+                self.shadow.update(new)
+                call = lambda c: None  # noqa: E731
+                self.model_frozen = True
         else:
             if k == "set":
                 mop, call = "set:%d:%d" % (op["k"], op["v"]), lambda c: c.__setitem__(op["k"], op["v"])
@@ -567,6 +580,16 @@ class PXRunner:
                 mop, call = "clr", lambda c: c.clear()
             elif k == "popitem":
                 call = lambda c: c.popitem()  # noqa: E731
+            elif k == "assign":
+                new = dict(op["kv"])
+                self.parent.itemvalues = new
+                # key order after a whole-dict assignment is not specified (surviving keys keep their
+                # place): align the plain dict's order with the proxy's, compare contents
+                order = [k0 for k0 in self.parent.itemvalues.keys() if k0 in new] + [k0 for k0 in new if k0 not in self.parent.itemvalues]
+                self.shadow.clear()
+                self.shadow.update({k0: new[k0] for k0 in order})
+                call = lambda c: None  # noqa: E731
+                self.model_frozen = True
         if call is None:
             raise ValueError(op)
         res = {}
@@ -600,8 +623,8 @@ class PXRunner:
             # both pop the last inserted key; keep the shadow aligned to whatever the proxy popped
             pass
         outcome = res["proxy"][0]
-        if k in ("sls", "dls"):
-            # slice mutation of the list proxy is outside the Lean model: the correspondence
+        if k in ("sls", "dls", "assign"):
+            # slice mutation / whole-collection assignment of the list proxy is outside the Lean model: the correspondence
             # covers the prefix of the sequence, the oracle the whole of it
             self.model_frozen = True
         if mop is not None and not self.model_frozen:
@@ -664,7 +687,10 @@ def px_gen_op(rng, R, edge):
     vals = lambda: [val() for _ in range(rng.randint(0, 3))]  # noqa: E731
     if kind == "list":
         idx = lambda: rng.randint(-n - 1, n + 1) if rng.random() < 0.3 or n == 0 else rng.randint(-n, n - 1)  # noqa: E731
-        c = rng.choice(["app", "app", "ext", "iadd", "ins", "del", "pop", "set", "rem", "clr", "mul", "sls", "dls", "gsl"])
+        c = rng.choice(["app", "app", "ext", "iadd", "ins", "del", "pop", "set", "rem", "clr", "mul", "sls", "dls", "gsl", "assign"])
+        if c == "assign":
+            keep = [x for x in sh if rng.random() < 0.6]
+            return {"op": "assign", "vs": keep + vals()}
         if c == "app":
             return {"op": "app", "v": val()}
         if c in ("ext", "iadd"):
@@ -688,7 +714,9 @@ def px_gen_op(rng, R, edge):
             return {"op": "sls", "sl": sl, "vs": [val() for _ in range(k)]}
         return {"op": c, "sl": sl}
     if kind == "set":
-        c = rng.choice(["add", "add", "dis", "rem", "upd", "ior", "dif", "isub", "int", "iand", "sym", "ixor", "clr", "pop"])
+        c = rng.choice(["add", "add", "dis", "rem", "upd", "ior", "dif", "isub", "int", "iand", "sym", "ixor", "clr", "pop", "assign"])
+        if c == "assign":
+            return {"op": "assign", "vs": sorted({x for x in sh if rng.random() < 0.6} | set(vals()))}
         if c in ("add", "dis", "rem"):
             return {"op": c, "v": rng.choice(sorted(sh)) if sh and rng.random() < 0.5 else val()}
         if c == "clr":
@@ -697,7 +725,21 @@ def px_gen_op(rng, R, edge):
             return {"op": "pop"}
         return {"op": c, "vs": vals() + ([rng.choice(sorted(sh))] if sh and rng.random() < 0.5 else [])}
     key = lambda: rng.choice(sorted(sh)) if sh and rng.random() < 0.6 else rng.randint(0, 5)  # noqa: E731
-    c = rng.choice(["set", "set", "del", "pop", "popd", "sdf", "upd", "updp", "clr", "popitem"])
+    c = rng.choice(["set", "set", "del", "pop", "popd", "sdf", "upd", "updp", "clr", "popitem", "assign", "assign"])
+    if c == "assign":
+        # whole-dict assignment: surviving keys with changed AND unchanged values, new keys, dropped keys
+        kv = []
+        for k0 in sorted(sh):
+            r = rng.random()
+            if r < 0.4:
+                kv.append([k0, (sh[k0] + 1) % 7])
+            elif r < 0.7:
+                kv.append([k0, sh[k0]])
+        for _ in range(rng.randint(0, 2)):
+            k1 = rng.randint(0, 5)
+            if k1 not in sh and all(k1 != p[0] for p in kv):
+                kv.append([k1, val()])
+        return {"op": "assign", "kv": kv}
     if c == "set":
         return {"op": "set", "k": key(), "v": val()}
     if c in ("del", "pop"):
